@@ -51,11 +51,11 @@ pub const POOL: [(u32, u32); 8] = [
     (4, 65004),
 ];
 
-fn addr_of(n: u32) -> IpAddr {
+pub(crate) fn addr_of(n: u32) -> IpAddr {
     if n < 100 { IpAddr::V4(Ipv4Addr::new(192, 0, 2, n as u8)) }
     else { IpAddr::V6(Ipv6Addr::new(0x2001, 0xdb8, 0xffff, 0, 0, 0, 0, (n - 100) as u16)) }
 }
-fn addr_n(a: IpAddr) -> u32 {
+pub(crate) fn addr_n(a: IpAddr) -> u32 {
     match a {
         IpAddr::V4(a) => a.octets()[3] as u32,
         IpAddr::V6(a) => 100 + a.segments()[7] as u32,
@@ -63,7 +63,7 @@ fn addr_n(a: IpAddr) -> u32 {
 }
 
 // ---------------------------------------------------------------- byte encoders (MRT, BGP)
-fn mrt_record(typ: u16, subtype: u16, et: bool, body: &[u8]) -> Vec<u8> {
+pub(crate) fn mrt_record(typ: u16, subtype: u16, et: bool, body: &[u8]) -> Vec<u8> {
     let mut v = vec![];
     v.extend_from_slice(&0x6000_0000u32.to_be_bytes());
     v.extend_from_slice(&typ.to_be_bytes());
@@ -75,11 +75,11 @@ fn mrt_record(typ: u16, subtype: u16, et: bool, body: &[u8]) -> Vec<u8> {
     v
 }
 
-fn push_addr(v: &mut Vec<u8>, a: IpAddr) {
+pub(crate) fn push_addr(v: &mut Vec<u8>, a: IpAddr) {
     match a { IpAddr::V4(a) => v.extend_from_slice(&a.octets()), IpAddr::V6(a) => v.extend_from_slice(&a.octets()) }
 }
 
-fn pit_record(peers: &[usize]) -> Vec<u8> {
+pub(crate) fn pit_record(peers: &[usize]) -> Vec<u8> {
     let mut b = vec![10, 0, 0, 9, 0, 0];
     b.extend_from_slice(&(peers.len() as u16).to_be_bytes());
     for (k, &i) in peers.iter().enumerate() {
@@ -95,21 +95,21 @@ fn pit_record(peers: &[usize]) -> Vec<u8> {
 }
 
 /// wire form of a prefix: fam 0 -> 10.p.0.0/16, fam 1 -> 2001:db8:p::/48
-fn prefix_wire(fam: u32, p: u32) -> Vec<u8> {
+pub(crate) fn prefix_wire(fam: u32, p: u32) -> Vec<u8> {
     if fam % 2 == 0 { vec![16, 10, p as u8] } else { vec![48, 0x20, 0x01, 0x0d, 0xb8, (p >> 8) as u8, p as u8] }
 }
 pub fn prefix_str(fam: u32, p: u32) -> String {
     if fam % 2 == 0 { format!("10.{}.0.0/16", p) } else { format!("2001:db8:{:x}::/48", p) }
 }
 
-fn attr_origin_aspath(a: u32) -> Vec<u8> {
+pub(crate) fn attr_origin_aspath(a: u32) -> Vec<u8> {
     let mut v = vec![0x40, 1, 1, 0, 0x40, 2, 10, 2, 2];
     v.extend_from_slice(&(100 + a).to_be_bytes());
     v.extend_from_slice(&200u32.to_be_bytes());
     v
 }
 
-fn rib_record(fam: u32, pfx: u32, entries: &[(u16, u32)], seq: u32) -> Vec<u8> {
+pub(crate) fn rib_record(fam: u32, pfx: u32, entries: &[(u16, u32)], seq: u32) -> Vec<u8> {
     let mut b = vec![];
     b.extend_from_slice(&seq.to_be_bytes());
     b.extend_from_slice(&prefix_wire(fam, pfx));
@@ -125,11 +125,11 @@ fn rib_record(fam: u32, pfx: u32, entries: &[(u16, u32)], seq: u32) -> Vec<u8> {
     mrt_record(13, if fam % 2 == 0 { 2 } else { 4 }, false, &b)
 }
 
-fn plist(tok: &str) -> Vec<u32> {
+pub(crate) fn plist(tok: &str) -> Vec<u32> {
     if tok == "-" { vec![] } else { tok.split(',').map(|t| t.parse().unwrap()).collect() }
 }
 
-fn bgp_msg(typ: u8, body: &[u8]) -> Vec<u8> {
+pub(crate) fn bgp_msg(typ: u8, body: &[u8]) -> Vec<u8> {
     let mut v = vec![0xffu8; 16];
     v.extend_from_slice(&((19 + body.len()) as u16).to_be_bytes());
     v.push(typ);
@@ -138,7 +138,7 @@ fn bgp_msg(typ: u8, body: &[u8]) -> Vec<u8> {
 }
 
 /// a BGP UPDATE (four-octet AS path): announce `ps` of family af with attributes a, withdraw `ws` of family wf
-fn bgp_update(af: u32, a: u32, ps: &[u32], wf: u32, ws: &[u32]) -> Vec<u8> {
+pub(crate) fn bgp_update(af: u32, a: u32, ps: &[u32], wf: u32, ws: &[u32]) -> Vec<u8> {
     let mut withdrawn = vec![];
     let mut attrs = vec![];
     let mut nlri = vec![];
@@ -174,7 +174,7 @@ fn bgp_update(af: u32, a: u32, ps: &[u32], wf: u32, ws: &[u32]) -> Vec<u8> {
     bgp_msg(2, &b)
 }
 
-fn bgp_other(kind: &str) -> Vec<u8> {
+pub(crate) fn bgp_other(kind: &str) -> Vec<u8> {
     match kind {
         "o" => bgp_msg(1, &[4, 0xfd, 0xe9, 0, 180, 10, 0, 0, 1, 0]),
         "k" => bgp_msg(4, &[]),
@@ -200,7 +200,7 @@ pub fn wire_peer(v: u32, p: usize) -> (u32, u32) {
     if v % 10 == 2 { (a, s % 65536) } else { (a, s) }
 }
 
-fn bgp4mp_header(v: u32, p: usize) -> Vec<u8> {
+pub(crate) fn bgp4mp_header(v: u32, p: usize) -> Vec<u8> {
     let (a, s) = wire_peer(v, p);
     let addr = addr_of(a);
     let mut b = vec![];
@@ -218,13 +218,13 @@ fn bgp4mp_header(v: u32, p: usize) -> Vec<u8> {
     b
 }
 
-fn bgp4mp_message(v: u32, p: usize, msg: &[u8]) -> Vec<u8> {
+pub(crate) fn bgp4mp_message(v: u32, p: usize, msg: &[u8]) -> Vec<u8> {
     let mut b = bgp4mp_header(v, p);
     b.extend_from_slice(msg);
     mrt_record(if v >= 10 { 17 } else { 16 }, if v % 10 == 2 { 1 } else { 4 }, v >= 10, &b)
 }
 
-fn bgp4mp_state(v: u32, p: usize, old: u16, new: u16) -> Vec<u8> {
+pub(crate) fn bgp4mp_state(v: u32, p: usize, old: u16, new: u16) -> Vec<u8> {
     let mut b = bgp4mp_header(v, p);
     b.extend_from_slice(&old.to_be_bytes());
     b.extend_from_slice(&new.to_be_bytes());
@@ -234,7 +234,7 @@ fn bgp4mp_state(v: u32, p: usize, old: u16, new: u16) -> Vec<u8> {
 // ---------------------------------------------------------------- files
 enum FileSpec { Good { comp: char, bytes: Vec<u8> }, Bad(char) }
 
-fn scratch_root() -> PathBuf {
+pub(crate) fn scratch_root() -> PathBuf {
     // <verif>/.cache/target/release/vh  ->  <verif>/.cache/c16/<pid>
     let exe = std::env::current_exe().unwrap();
     let cache = exe.parent().and_then(|p| p.parent()).and_then(|p| p.parent()).unwrap().to_path_buf();
@@ -272,7 +272,7 @@ fn write_file(dir: &std::path::Path, k: usize, f: &FileSpec) -> (PathBuf, bool) 
 }
 
 // ---------------------------------------------------------------- observation
-fn first_hop(meta: &rotonda::payload::RotondaPaMap) -> u32 {
+pub(crate) fn first_hop(meta: &rotonda::payload::RotondaPaMap) -> u32 {
     let v = serde_json::to_value(meta).unwrap_or(serde_json::Value::Null);
     if let Some(arr) = v.as_array() {
         for item in arr {
@@ -289,11 +289,11 @@ fn first_hop(meta: &rotonda::payload::RotondaPaMap) -> u32 {
     9999
 }
 
-struct Namer { reg: Arc<Register>, parent: u32 }
+pub(crate) struct Namer { pub(crate) reg: Arc<Register>, pub(crate) parent: u32 }
 impl Namer {
     /// `p<addr>.<as>` from the register's record of the id, with `#k` (rank among the ids
     /// registered for the same peer under the unit) when the peer has more than one id
-    fn name(&self, id: u32) -> String {
+    pub(crate) fn name(&self, id: u32) -> String {
         let info = match self.reg.get(id) { Some(i) => i, None => return format!("?{id}") };
         let (a, s) = match (info.remote_addr, info.remote_asn) { (Some(a), Some(s)) => (a, s), _ => return format!("?{id}") };
         if info.parent_ingress != Some(self.parent) { return format!("?parent{id}"); }
@@ -303,13 +303,13 @@ impl Namer {
         let base = format!("p{}.{}", addr_n(a), s.into_u32());
         if same.len() > 1 { format!("{base}#{}", same.iter().position(|x| *x == id).unwrap()) } else { base }
     }
-    fn wire(&self, id: u32) -> String {
+    pub(crate) fn wire(&self, id: u32) -> String {
         let n = self.name(id);
         n.split('#').next().unwrap().to_string()
     }
 }
 
-fn route_tok(r: &RotondaRoute) -> (String, u32) {
+pub(crate) fn route_tok(r: &RotondaRoute) -> (String, u32) {
     let (fam, s, meta) = match r {
         RotondaRoute::Ipv4Unicast(n, m) => (0, n.to_string(), m),
         RotondaRoute::Ipv6Unicast(n, m) => (1, n.to_string(), m),
@@ -324,7 +324,7 @@ fn route_tok(r: &RotondaRoute) -> (String, u32) {
     (match num { Some(k) => format!("{fam}.{k}"), None => format!("{fam}.?{s}") }, first_hop(meta))
 }
 
-fn show_update(nm: &Namer, u: &Update) -> String {
+pub(crate) fn show_update(nm: &Namer, u: &Update) -> String {
     let ctx = |c: &RouteContext| -> (RouteStatus, u32, Option<(IpAddr, u32)>) {
         match c {
             RouteContext::Mrt(c) => (c.status, c.provenance().ingress_id, Some((c.provenance().peer_ip, c.provenance().peer_asn.into_u32()))),
@@ -492,7 +492,7 @@ fn run_in(line: &str, root: &std::path::Path) -> String {
 
 /// join futures, polling them in order: the first poll of each request runs up to (and through) its
 /// queue send, so the queue order is the order of the list
-async fn futures_join(mut fs: Vec<std::pin::Pin<Box<dyn std::future::Future<Output = String> + Send>>>) -> Vec<String> {
+pub(crate) async fn futures_join(mut fs: Vec<std::pin::Pin<Box<dyn std::future::Future<Output = String> + Send>>>) -> Vec<String> {
     let mut outs: Vec<Option<String>> = fs.iter().map(|_| None).collect();
     std::future::poll_fn(move |cx| {
         let mut pending = false;
